@@ -29,6 +29,7 @@ import (
 	"strconv"
 	"strings"
 	"sync"
+	"syscall"
 	"time"
 
 	"github.com/megaease/easegress/pkg/context"
@@ -135,11 +136,30 @@ type e2eScript struct {
 	Status  int         `json:"status"`
 	Headers [][2]string `json:"headers,omitempty"`
 	Body    []byte      `json:"-"`    // bytes put on the wire (already encoded)
-	Mode    string      `json:"mode"` // cl | chunked | short
+	Mode    string      `json:"mode"` // cl | chunked | short | short-chunked | drop | reset | drop-in-headers | hang
 	SendN   int         `json:"sendN,omitempty"`
 	// short: Content-Length len(Body) is declared, only Body[:SendN] is sent, then the
 	// connection is closed.
+	// short-chunked: a chunked body is begun, Body[:SendN] is sent in chunks, then the
+	// connection is closed without the terminating chunk.
+	// drop / reset: the request is read, then the connection is closed (FIN / RST) without
+	// a single response byte.  drop-in-headers: closed in the middle of the header block.
+	// hang: no response until the caller gives up (its connection ends).
+
+	// The first FailFirst contacts of this exchange id are answered with FailStatus and a
+	// tiny body (FailStatus 0: the connection is dropped instead); later contacts play the
+	// script.  For gateways with a retry policy.
+	FailFirst  int `json:"failFirst,omitempty"`
+	FailStatus int `json:"failStatus,omitempty"`
+	// Slow backend (lower bounds, never part of a verdict): wait before reading the
+	// request body / before answering.
+	ReadDelayMs int `json:"readDelayMs,omitempty"`
+	RespDelayMs int `json:"respDelayMs,omitempty"`
 }
+
+// e2eHangWatchdog bounds a "hang" script; its firing is reported in e2eSeen.HangExpired
+// and makes the exchange inconclusive.
+const e2eHangWatchdog = 100 * time.Second
 
 // e2eSeen is what the backend received for one exchange id.
 type e2eSeen struct {
@@ -153,6 +173,11 @@ type e2eSeen struct {
 	CL         int64
 	N          int
 	Contacts   []string // remote address and time of every contact for this id
+	// every contact, in order of arrival (Body/BodyErr above are those of the last one)
+	Bodies      [][]byte
+	BodyErrs    []string
+	Times       []time.Time // arrival of the request head of every contact
+	HangExpired bool
 }
 
 type e2eBackend struct {
@@ -240,6 +265,13 @@ func (b *e2eBackend) Total() int64 {
 
 func (b *e2eBackend) ServeHTTP(w http.ResponseWriter, r *http.Request) {
 	id := r.Header.Get(e2eIDHeader)
+	arrived := time.Now()
+	b.mu.Lock()
+	sc := b.scripts[id]
+	b.mu.Unlock()
+	if sc != nil && sc.ReadDelayMs > 0 {
+		time.Sleep(time.Duration(sc.ReadDelayMs) * time.Millisecond)
+	}
 	body, err := io.ReadAll(r.Body)
 	seen := &e2eSeen{
 		Method: r.Method, RequestURI: r.RequestURI, Host: r.Host, Header: r.Header.Clone(),
@@ -255,13 +287,19 @@ func (b *e2eBackend) ServeHTTP(w http.ResponseWriter, r *http.Request) {
 	}
 	b.mu.Lock()
 	b.total++
-	seen.Contacts = []string{r.RemoteAddr + " " + time.Now().Format("15:04:05.000000")}
+	seen.Contacts = []string{r.RemoteAddr + " " + arrived.Format("15:04:05.000000")}
+	seen.Bodies, seen.BodyErrs, seen.Times = [][]byte{body}, []string{seen.BodyErr}, []time.Time{arrived}
 	if old := b.seen[id]; old != nil {
 		seen.N = old.N + 1
 		seen.Contacts = append(old.Contacts, seen.Contacts...)
+		seen.Bodies = append(old.Bodies, seen.Bodies...)
+		seen.BodyErrs = append(old.BodyErrs, seen.BodyErrs...)
+		seen.Times = append(old.Times, seen.Times...)
+		seen.HangExpired = old.HangExpired
 	}
 	b.seen[id] = seen
-	sc := b.scripts[id]
+	sc = b.scripts[id]
+	nth := seen.N
 	b.mu.Unlock()
 	if sc == nil {
 		w.Header().Set("Content-Type", "text/plain")
@@ -269,7 +307,75 @@ func (b *e2eBackend) ServeHTTP(w http.ResponseWriter, r *http.Request) {
 		io.WriteString(w, "e2e backend: no script for id "+id)
 		return
 	}
-	switch sc.Mode {
+	if sc.RespDelayMs > 0 {
+		time.Sleep(time.Duration(sc.RespDelayMs) * time.Millisecond)
+	}
+	mode := sc.Mode
+	if nth <= sc.FailFirst {
+		if sc.FailStatus != 0 {
+			w.Header().Set("Content-Type", "text/plain")
+			w.Header().Set("X-E2e-Failed-Attempt", strconv.Itoa(nth))
+			w.WriteHeader(sc.FailStatus)
+			io.WriteString(w, "e2e backend: scripted failure of attempt "+strconv.Itoa(nth))
+			return
+		}
+		mode = "drop"
+	}
+	switch mode {
+	case "drop", "reset", "drop-in-headers", "short-chunked":
+		hj, ok := w.(http.Hijacker)
+		if !ok {
+			w.WriteHeader(597)
+			return
+		}
+		c, bw, err := hj.Hijack()
+		if err != nil {
+			return
+		}
+		switch mode {
+		case "reset":
+			if tc, ok := c.(*net.TCPConn); ok {
+				tc.SetLinger(0)
+			}
+		case "drop-in-headers":
+			fmt.Fprintf(bw, "HTTP/1.1 %d %s\r\nContent-Type: text/plain\r\nX-Cut-Off: he", sc.Status, http.StatusText(sc.Status))
+			bw.Flush()
+		case "short-chunked":
+			fmt.Fprintf(bw, "HTTP/1.1 %d %s\r\n", sc.Status, http.StatusText(sc.Status))
+			for _, kv := range sc.Headers {
+				fmt.Fprintf(bw, "%s: %s\r\n", kv[0], kv[1])
+			}
+			bw.WriteString("Transfer-Encoding: chunked\r\n\r\n")
+			rest := sc.Body[:sc.SendN]
+			for len(rest) > 0 {
+				k := 4096
+				if k > len(rest) {
+					k = len(rest)
+				}
+				fmt.Fprintf(bw, "%x\r\n", k)
+				bw.Write(rest[:k])
+				bw.WriteString("\r\n")
+				rest = rest[k:]
+			}
+			bw.Flush()
+		}
+		c.Close()
+		return
+	case "hang":
+		t := time.NewTimer(e2eHangWatchdog)
+		defer t.Stop()
+		select {
+		case <-r.Context().Done():
+		case <-t.C:
+			b.mu.Lock()
+			if s := b.seen[id]; s != nil {
+				s.HangExpired = true
+			}
+			b.mu.Unlock()
+		}
+		return
+	}
+	switch mode {
 	case "short":
 		hj, ok := w.(http.Hijacker)
 		if !ok {
@@ -361,6 +467,45 @@ type e2eCfg struct {
 	ReqAd           *e2eAdaptor `json:"reqAdaptor,omitempty"`
 	RespAd          *e2eAdaptor `json:"respAdaptor,omitempty"`
 	CacheSize       int         `json:"cacheSize,omitempty"` // HTTPServer route cache (0 = off)
+	// pool-level failure handling
+	FailureCodes  []int     `json:"failureCodes,omitempty"`
+	Retry         *e2eRetry `json:"retry,omitempty"`         // pipeline resilience policy used by the pool
+	PoolTimeoutMs int       `json:"poolTimeoutMs,omitempty"` // pool `timeout`
+	// DeadPort: the pool's only server is 127.0.0.1:<DeadPort>, a port that refuses
+	// connections (see e2eReservePort)
+	DeadPort string `json:"deadPort,omitempty"`
+}
+
+// e2eRetry is a Retry resilience policy.
+type e2eRetry struct {
+	MaxAttempts int     `json:"maxAttempts"`
+	WaitMs      int     `json:"waitMs"`
+	Random      float64 `json:"randomizationFactor"`
+}
+
+// e2eReservePort binds (without listening on) a loopback port: connecting to it is
+// refused for as long as the returned release function has not been called, and nobody
+// else on the machine can take the port meanwhile.
+func e2eReservePort() (port string, release func(), err error) {
+	fd, err := syscall.Socket(syscall.AF_INET, syscall.SOCK_STREAM, 0)
+	if err != nil {
+		return "", nil, err
+	}
+	if err = syscall.Bind(fd, &syscall.SockaddrInet4{Addr: [4]byte{127, 0, 0, 1}}); err != nil {
+		syscall.Close(fd)
+		return "", nil, err
+	}
+	sa, err := syscall.Getsockname(fd)
+	if err != nil {
+		syscall.Close(fd)
+		return "", nil, err
+	}
+	in4, ok := sa.(*syscall.SockaddrInet4)
+	if !ok {
+		syscall.Close(fd)
+		return "", nil, errors.New("not an IPv4 socket address")
+	}
+	return strconv.Itoa(in4.Port), func() { syscall.Close(fd) }, nil
 }
 
 func (a *e2eAdaptor) yaml(name, kind string) string {
@@ -379,6 +524,9 @@ func (a *e2eAdaptor) yaml(name, kind string) string {
 }
 
 func (c *e2eCfg) backendURL(be *e2eBackend) string {
+	if c.DeadPort != "" {
+		return "http://127.0.0.1:" + c.DeadPort
+	}
 	if c.HostNameServer {
 		return "http://localhost:" + be.port
 	}
@@ -394,6 +542,10 @@ func (c *e2eCfg) pipelineYAML(be *e2eBackend) string {
 	b.WriteString("- filter: proxy\n")
 	if c.RespAd != nil {
 		b.WriteString("- filter: respad\n")
+	}
+	if c.Retry != nil {
+		fmt.Fprintf(&b, "resilience:\n- name: retry\n  kind: Retry\n  maxAttempts: %d\n  waitDuration: %dms\n  randomizationFactor: %g\n",
+			c.Retry.MaxAttempts, c.Retry.WaitMs, c.Retry.Random)
 	}
 	b.WriteString("filters:\n")
 	if c.ReqAd != nil {
@@ -413,6 +565,22 @@ func (c *e2eCfg) pipelineYAML(be *e2eBackend) string {
 	}
 	if c.PoolServerMax != 0 {
 		fmt.Fprintf(&b, "    serverMaxBodySize: %d\n", c.PoolServerMax)
+	}
+	if c.Retry != nil {
+		b.WriteString("    retryPolicy: retry\n")
+	}
+	if c.PoolTimeoutMs > 0 {
+		fmt.Fprintf(&b, "    timeout: %dms\n", c.PoolTimeoutMs)
+	}
+	if len(c.FailureCodes) > 0 {
+		b.WriteString("    failureCodes: [")
+		for i, fc := range c.FailureCodes {
+			if i > 0 {
+				b.WriteString(", ")
+			}
+			b.WriteString(strconv.Itoa(fc))
+		}
+		b.WriteString("]\n")
 	}
 	if c.RespAd != nil {
 		b.WriteString(c.RespAd.yaml("respad", "ResponseAdaptor"))
@@ -970,6 +1138,10 @@ func (cl *e2eClient) once(q *e2eReq) *e2eResult {
 			}
 		} else if q.Framing == "short-cl" {
 			resp.Close = true
+		} else if n := conn.br.Buffered(); n > 0 {
+			// requests are never pipelined: whatever has arrived behind a complete
+			// response on a kept-alive connection does not belong to any response
+			resp.FramingErr = fmt.Sprintf("bytes-after-response(%d)", n)
 		}
 	}
 	// the writer ends when everything is written or the socket dies
@@ -983,4 +1155,72 @@ func (cl *e2eClient) once(q *e2eReq) *e2eResult {
 		cl.Close()
 	}
 	return res
+}
+
+// ---------------------------------------------------------------- self-identifying bodies
+
+// e2ePatternBody returns n bytes that name their owner and their position all the way
+// through: records "<owner>@<offset, 8 hex digits>;" repeated and cut to n.  Bytes of one
+// exchange that turn up in the body of another are thereby visible and attributable.
+func e2ePatternBody(owner string, n int) []byte {
+	const hexd = "0123456789abcdef"
+	b := make([]byte, 0, n+len(owner)+16)
+	for len(b) < n {
+		off := len(b)
+		b = append(b, owner...)
+		b = append(b, '@')
+		var o [8]byte
+		for i := 7; i >= 0; i-- {
+			o[i] = hexd[off&15]
+			off >>= 4
+		}
+		b = append(b, o[:]...)
+		b = append(b, ';')
+	}
+	return b[:n]
+}
+
+// e2eBodyDiff describes how got differs from want: lengths, the first differing offset
+// and the bytes around it on both sides (a foreign owner tag shows up there).
+func e2eBodyDiff(want, got []byte) map[string]interface{} {
+	d := map[string]interface{}{"wantLen": len(want), "gotLen": len(got)}
+	n := len(want)
+	if len(got) < n {
+		n = len(got)
+	}
+	first := -1
+	for i := 0; i < n; i++ {
+		if want[i] != got[i] {
+			first = i
+			break
+		}
+	}
+	if first < 0 {
+		if len(want) != len(got) {
+			d["firstDifference"] = fmt.Sprintf("common prefix of %d bytes, then one side ends", n)
+		}
+		return d
+	}
+	last := first
+	for i := n - 1; i > first; i-- {
+		if want[i] != got[i] {
+			last = i
+			break
+		}
+	}
+	clip := func(b []byte, at int) string {
+		lo, hi := at-8, at+72
+		if lo < 0 {
+			lo = 0
+		}
+		if hi > len(b) {
+			hi = len(b)
+		}
+		return fmt.Sprintf("%q", b[lo:hi])
+	}
+	d["firstDifferenceAt"] = first
+	d["lastDifferenceAt"] = last
+	d["wantThere"] = clip(want, first)
+	d["gotThere"] = clip(got, first)
+	return d
 }
